@@ -39,6 +39,8 @@ DevHide == Dev = "HideRestore"
 DevEarly == Dev = "EarlyExitWalk"
 DevLast == Dev = "LastKeyDecides"
 DevMemoRoot == Dev = "MemoRootUnsync"
+DevReuse == Dev = "ReuseInputContainer"
+DevRelease == Dev = "ReleaseOutsideLock"
 DevNoMutex == Dev = "NoStepMutex"
 DevEnum == Dev = "EnumEarlyReturn"
 
@@ -59,6 +61,8 @@ DevKinds ==
       [] Dev = "EarlyExitWalk" -> {"objreq"}
       [] Dev = "LastKeyDecides" -> {"enum"}
       [] Dev = "MemoRootUnsync" -> {"objmap", "steps"}
+      [] Dev = "ReuseInputContainer" -> {"listarg"}
+      [] Dev = "ReleaseOutsideLock" -> {"steps"}
       [] Dev = "NoStepMutex" -> {"steps"}
       [] Dev = "EnumEarlyReturn" -> {"enum"}
       [] OTHER -> {}
